@@ -27,8 +27,15 @@ def wait(deferred):
 
 class TryCompute:
     depth = 0
+    # Values found not to be computable yet during the current (outermost)
+    # speculation. Nothing new is learnt while speculating, so asking for them
+    # again can only fail the same way (doing so anyway made the time
+    # exponential in the length of a chain like 'b = a * a', 'c = b * b', ...)
+    not_ready_yet = {}
 
     def __enter__(self):
+        if self.depth == 0:
+            self.not_ready_yet = {}
         self.depth += 1
         return self
 
@@ -86,8 +93,15 @@ class BaseDeferred(metaclass=BaseDeferredMetaclass):
         return cls(*args, **kwargs)
 
     def wait(self):
+        if try_compute.depth > 0 and id(self) in try_compute.not_ready_yet:
+            raise NotReadyError()
         with Awaiting(self):
-            return self._wait()
+            try:
+                return self._wait()
+            except NotReadyError:
+                if try_compute.depth > 0:
+                    try_compute.not_ready_yet[id(self)] = self
+                raise
 
     def get_current_best_estimate(self):
         raise NotImplementedError(type(self).__name__ + ".get_current_best_estimate()")  # pragma: no cover
